@@ -129,7 +129,12 @@ where
             WaitingProjected::NoPool => Poll::Ready(WaitingPoll::Closed),
         };
 
-        if polled.is_ready() {
+        // Only stop listening once the channel has resolved. `NotReady` means the checkout keeps
+        // dialing on its own while it continues to wait for a connection handed back to the pool.
+        if matches!(
+            polled,
+            Poll::Ready(WaitingPoll::Connected(_) | WaitingPoll::Closed)
+        ) {
             self.as_mut().set(Waiting::NoPool);
         };
 
